@@ -6,6 +6,7 @@ package main
 import (
 	"fmt"
 	"go/types"
+	"net"
 	"strings"
 
 	"golang.org/x/tools/go/ssa"
@@ -389,6 +390,9 @@ func init() {
 	intrinsics["fmt.Sprint"] = func(ex *Exec, st *State, fn *ssa.Function, args []Value, site ssa.Instruction) Value {
 		return ex.strConst("<fmt.Sprint>")
 	}
+	intrinsics["fmt.Sprintln"] = func(ex *Exec, st *State, fn *ssa.Function, args []Value, site ssa.Instruction) Value {
+		return ex.strConst("<fmt.Sprintln>")
+	}
 	intrinsics["fmt.Println"] = func(ex *Exec, st *State, fn *ssa.Function, args []Value, site ssa.Instruction) Value {
 		return &Agg{E: []Value{i64(0), &IfaceC{}}}
 	}
@@ -396,6 +400,15 @@ func init() {
 	intrinsics["fmt.Print"] = intrinsics["fmt.Println"]
 	intrinsics["github.com/massnetorg/mass-core/logging.CPrint"] = nop
 	intrinsics["github.com/massnetorg/mass-core/logging.VPrint"] = nop
+	intrinsics["net.ParseIP"] = func(ex *Exec, st *State, fn *ssa.Function, args []Value, site ssa.Instruction) Value {
+		if str, ok := ex.concreteString(st, args[0].(*SliceV)); ok {
+			return ex.bytesValue(st, net.ParseIP(str))
+		}
+		if ov, ok := ex.overrides["net.ParseIP#symbolic"]; ok {
+			return ex.callFunction(st, ov, args, site, len(ex.ctx)+1)
+		}
+		panic(unsupported("net.ParseIP on a symbolic string without a #symbolic override"))
+	}
 	intrinsics["time.Now"] = func(ex *Exec, st *State, fn *ssa.Function, args []Value, site ssa.Instruction) Value {
 		// Time{wall uint64; ext int64; loc *Location}: arbitrary instant (monotonicity is added by harness stubs when needed)
 		return &Agg{E: []Value{ex.nondet("time.Now.wall", 64), ex.nondet("time.Now.ext", 64), nilPtr}}
@@ -640,4 +653,15 @@ func (ex *Exec) sprintf(st *State, args []Value, site ssa.Instruction) Value {
 		}
 	}
 	return ex.strConst(fmt.Sprintf(format, goArgs...))
+}
+
+func (ex *Exec) bytesValue(st *State, b []byte) *SliceV {
+	if b == nil {
+		return &SliceV{Base: nilPtr, Off: i64(0), Len: i64(0), Cap: i64(0)}
+	}
+	es := make([]Value, len(b))
+	for i, x := range b {
+		es[i] = BV(8, uint64(x))
+	}
+	return ex.mkSliceFromElems(st, es)
 }
